@@ -1,0 +1,11 @@
+//go:build !verif
+
+// Package verifhook provides verification hook points. Without the `verif` build tag every
+// function is an inlined no-op.
+package verifhook
+
+// Yield marks a named point where a verification harness may pause the calling goroutine.
+func Yield(string) {}
+
+// Fault lets a verification harness inject a failure into a named operation.
+func Fault(string, string) error { return nil }
